@@ -32,20 +32,31 @@ func earnedMap(s *Snapshot) map[string]int64 {
 
 func (o *c13) Step(r *StepRec) []Violation {
 	a, pre, post := r.Action, r.Pre, r.Post
-	// invariant: owner total == sum over its providers
-	sums := map[string]int64{}
-	for _, e := range post.Earned {
-		ow, ok := post.Owner[e.Provider]
-		if !ok {
-			o.fail("c13:noowner:"+a.Kind, "earnings recorded for provider %s that has no owner", short(e.Provider))
-			continue
+	// invariant, per denomination: owner total == sum over its providers
+	for _, dn := range coinDenoms {
+		sums := map[string]int64{}
+		for _, e := range post.Earned {
+			if e.Denom != dn {
+				continue
+			}
+			ow, ok := post.Owner[e.Provider]
+			if !ok {
+				o.fail("c13:noowner:"+a.Kind, "earnings recorded for provider %s that has no owner", short(e.Provider))
+				continue
+			}
+			sums[ow] += e.Amount
 		}
-		sums[ow] += e.Amount
+		oe := post.ownerEarnIn(dn)
+		for _, ow := range sortedAddrs(sums, oe) {
+			if sums[ow] != oe[ow] {
+				o.fail(o.sig(r), "owner %s: recorded earnings %d%s, its providers' earnings sum to %d%s after %s", short(ow), oe[ow], dn, sums[ow], dn, a.Kind)
+				break
+			}
+		}
 	}
-	for _, ow := range sortedAddrs(sums, post.OwnerEarn) {
-		if sums[ow] != post.OwnerEarn[ow] {
-			o.fail(o.sig(r), "owner %s: recorded earnings %d, its providers' earnings sum to %d after %s", short(ow), post.OwnerEarn[ow], sums[ow], a.Kind)
-			break
+	for _, e := range post.Earned {
+		if e.Denom != "stake" && e.Denom != "point" {
+			o.fail("c13:denom:"+a.Kind, "earnings recorded in a coin that does not exist: %s", e.Denom)
 		}
 	}
 	if !r.OK {
@@ -86,25 +97,29 @@ func (o *c13) Step(r *StepRec) []Violation {
 		to = wa
 		o.hit("withdrawal_to_set_address")
 	}
-	var paid int64
+	paid := map[string]int64{}  // per denomination
 	zeroed := map[string]bool{} // key bodies expected to be zero afterwards
 	if a.Provider != "" {
 		o.hit("per_provider_withdrawal")
-		paid = pre.EarnedOf(a.Provider)
 		for _, e := range pre.Earned {
 			if e.Provider == a.Provider {
 				zeroed[e.KeyBody] = true
+				paid[e.Denom] += e.Amount
 			} else if strings.HasPrefix(e.Provider, a.Provider) || strings.HasPrefix(a.Provider, e.Provider) {
 				o.hit("prefix_related_provider_with_earnings")
 			}
 		}
-		if want := pre.OwnerEarn[a.Signer] - paid; post.OwnerEarn[a.Signer] != want {
-			o.fail(o.sig(r), "owner total after per-provider withdrawal is %d, expected %d", post.OwnerEarn[a.Signer], want)
+		for _, dn := range coinDenoms {
+			if want := pre.ownerEarnIn(dn)[a.Signer] - paid[dn]; post.ownerEarnIn(dn)[a.Signer] != want {
+				o.fail(o.sig(r), "owner total after per-provider withdrawal is %d%s, expected %d%s", post.ownerEarnIn(dn)[a.Signer], dn, want, dn)
+			}
 		}
 	} else {
 		o.hit("whole_owner_withdrawal")
-		paid = pre.OwnerEarn[a.Signer]
 		n := 0
+		for _, dn := range coinDenoms {
+			paid[dn] = pre.ownerEarnIn(dn)[a.Signer]
+		}
 		for _, e := range pre.Earned {
 			if pre.Owner[e.Provider] == a.Signer {
 				zeroed[e.KeyBody] = true
@@ -116,12 +131,20 @@ func (o *c13) Step(r *StepRec) []Violation {
 		if n >= 2 {
 			o.hit("owner_withdrawal_over_several_providers")
 		}
-		if post.OwnerEarn[a.Signer] != 0 {
-			o.fail(o.sig(r), "owner total after whole-owner withdrawal is %d", post.OwnerEarn[a.Signer])
+		for _, dn := range coinDenoms {
+			if v := post.ownerEarnIn(dn)[a.Signer]; v != 0 {
+				o.fail(o.sig(r), "owner total after whole-owner withdrawal is %d%s", v, dn)
+			}
 		}
 	}
-	if paid > 0 {
+	if paid["stake"] > 0 || paid["point"] > 0 {
 		o.hit("nonzero_withdrawal")
+	}
+	if paid["stake"] > 0 && paid["point"] > 0 {
+		o.hit("withdrawal_in_two_coins")
+	}
+	if pre.ownerEarnIn("stake")[a.Signer] > 0 && pre.ownerEarnIn("point")[a.Signer] > 0 {
+		o.hit("owner_holds_earnings_in_two_coins")
 	}
 	for _, kb := range sortedKeys(mergeKeys(preE, postE)) {
 		if zeroed[kb] {
@@ -132,21 +155,24 @@ func (o *c13) Step(r *StepRec) []Violation {
 			o.fail(o.sig(r), "earnings record %s of another provider changed %d -> %d in a withdrawal", short(kb), preE[kb], postE[kb])
 		}
 	}
-	for _, ow := range sortedAddrs(pre.OwnerEarn, post.OwnerEarn) {
-		if ow != a.Signer && pre.OwnerEarn[ow] != post.OwnerEarn[ow] {
-			o.fail(o.sig(r), "earnings of another owner %s changed %d -> %d in a withdrawal", short(ow), pre.OwnerEarn[ow], post.OwnerEarn[ow])
+	for _, dn := range coinDenoms {
+		po, qo := pre.ownerEarnIn(dn), post.ownerEarnIn(dn)
+		for _, ow := range sortedAddrs(po, qo) {
+			if ow != a.Signer && po[ow] != qo[ow] {
+				o.fail(o.sig(r), "earnings of another owner %s changed %d -> %d (%s) in a withdrawal", short(ow), po[ow], qo[ow], dn)
+			}
 		}
-	}
-	diff := balanceDiff(pre, post)
-	want := map[string]int64{}
-	if paid != 0 {
-		want[o.w.RequestAcc] -= paid
-		want[to] += paid
-	}
-	for _, acc := range sortedAddrs(diff, want) {
-		if diff[acc] != want[acc] {
-			o.fail(o.sig(r), "withdrawal of %d to %s: account %s moved by %d, expected %d", paid, short(to), short(acc), diff[acc], want[acc])
-			break
+		diff := balanceDiffIn(pre, post, dn)
+		want := map[string]int64{}
+		if paid[dn] != 0 {
+			want[o.w.RequestAcc] -= paid[dn]
+			want[to] += paid[dn]
+		}
+		for _, acc := range sortedAddrs(diff, want) {
+			if diff[acc] != want[acc] {
+				o.fail(o.sig(r), "withdrawal of %d%s to %s: account %s moved by %d, expected %d", paid[dn], dn, short(to), short(acc), diff[acc], want[acc])
+				break
+			}
 		}
 	}
 	return o.take()
